@@ -7,7 +7,7 @@
 (* rewriter and prints one verdict line per (record, property).            *)
 (* The post-condition only states that every record was consumed.          *)
 (***************************************************************************)
-EXTENDS Sites, Hygiene, LiteralsObs, Rewriter, Json, IOUtils
+EXTENDS Sites, Hygiene, LiteralsObs, Rewriter, Config, Json, IOUtils
 
 Recs == ndJsonDeserialize(IOEnv.TRACE)
 
@@ -179,8 +179,15 @@ JudgeGenerated(r) ==
        IF d = "" THEN Verdict(r.rid, "L0", "ok", "printed tree parses back")
        ELSE Verdict(r.rid, "L0", "toolerror", d)
 
+(* C05, configuration clause: omitted options take their documented defaults *)
+JudgeConfig(r) ==
+  \E why \in {ConfigWhy(r.raw, r.cfg, r.prefix_six_lower)} :
+    IF why = "" THEN Verdict(r.rid, "C05", IF ~r.raw.prefix_given \/ r.raw.chain = "omitted" \/ r.raw.literals = "omitted" THEN "ok" ELSE "ok0", "effective configuration")
+    ELSE Verdict(r.rid, "C05", "reject", <<"effective configuration differs from the documented defaulting", why>>)
+
 Judge(r) ==
   /\ JudgeTotal(r)
+  /\ (IF r.outcome = "ok" THEN JudgeConfig(r) ELSE TRUE)
   /\ (IF r.outcome = "ok" THEN JudgeGenerated(r) ELSE TRUE)
   /\ (IF r.outcome = "ok" THEN JudgeModel(r) ELSE IF r.refused THEN JudgeCancelled(r) ELSE TRUE)
   /\ IF r.outcome = "ok" THEN JudgeOk(r) /\ JudgeLiterals(r) ELSE TRUE
